@@ -140,7 +140,7 @@ class C09(Prop):
 
             c["colnames"] = gen_colnames(rng, nm) if 2 <= nm <= 3 else None
             if c["fkind"] != "none" and rng.random() < 0.15:
-                c["fname"] = "model"
+                c["fname"] = rng.choice(["model", "model", "model_"])
             yield c
 
     def impl(self, case):
